@@ -10,7 +10,7 @@ mods = sys.argv[1:] or [".", "cmd/aries-agent-mobile", "cmd/aries-agent-rest", "
 env = dict(os.environ, GOFLAGS="-mod=mod", GOPROXY="off", GOSUMDB="off")
 status = {}
 for m in mods:
-    p = subprocess.Popen(["go", "test", "-json", "-vet=off", "-count=1", "-timeout", "25m", "./..."], cwd=os.path.join("/repo", m),
+    p = subprocess.Popen(["go", "test", "-json", "-vet=off", "-count=1", "-timeout", "25m", "./..."], cwd=os.path.join(os.environ.get("VERIF_REPO", "/repo"), m),
                          env=env, stdout=subprocess.PIPE, stderr=subprocess.DEVNULL, text=True)
     for line in p.stdout:
         try:
